@@ -98,6 +98,9 @@ func runC15(p *core.Prog, r *core.Report) {
 		Guards: []core.Guard{core.G("metabase-mark-ok", core.ErrNil, mbT+".MarkGarbage")}, Effect: core.CallTo(wcI + ".Delete")})
 	r6 := r.Rule("C15.R6", "the data step itself cannot be caught half-done: every file-tree writer (blob storage and write-cache use it) makes the object visible under its final name only after the complete, successful data write (shared with C12.R1)", 5)
 	publishAfterCompleteWrite(p, r, r6)
+	r7 := r.Rule("C15.R7", "FSTree.PutBatch hands every element of the batch that has bytes to the writer or fails: no iteration of its loop over the batch ends without the element being appended to the written units, except for an element with no data — the write-cache deletes every object of a batch whose PutBatch returned nil (R2)", 1)
+	batchElementsAllWritten(p, r, r7)
+	r.Explain += " (R7) the other half of R2's 'PutBatch returned nil': in FSTree.PutBatch no iteration over the batch gets back to the loop head without appending the element to the units handed to the writer, other than through the 'element has no bytes' test; a skipped element would be deleted from the write-cache without ever reaching the blob storage while the metabase lists it."
 	r5 := r.Rule("C15.R5", "Shard.Put: on a metabase failure the bytes just written are rolled back (write-cache and blob storage delete on the metaErr path) before the error is returned", 1)
 	// the failure return after PutCounted must be preceded by blobStor.Delete (Executed) — must-follow from the failing edge
 	if pfn := p.Func(shardT + ".Put"); pfn != nil {
@@ -744,4 +747,44 @@ func selectCaseBlock(sel *ssa.Select, idx int) *ssa.BasicBlock {
 		}
 	}
 	return nil
+}
+
+func batchElementsAllWritten(p *core.Prog, r *core.Report, h *core.RuleH) {
+	fn := p.Func("(*" + fst + "FSTree).PutBatch")
+	if fn == nil {
+		r.Fatalf("C15.R7: FSTree.PutBatch not found")
+		return
+	}
+	var head *ssa.BasicBlock
+	stop := map[*ssa.BasicBlock]bool{}
+	skipEdge := map[[2]*ssa.BasicBlock]bool{}
+	for _, b := range fn.Blocks {
+		for _, in := range b.Instrs {
+			switch x := in.(type) {
+			case *ssa.Next:
+				head = b
+			case *ssa.Call:
+				if core.CalleeName(x) == "builtin.append" && strings.HasSuffix(x.Type().String(), "fstree.writeDataUnit") {
+					stop[b] = true
+				}
+			case *ssa.If:
+				bo, ok := x.Cond.(*ssa.BinOp)
+				if !ok || bo.Op != token.EQL {
+					continue
+				}
+				if k, isK := intConstOf(bo.Y); !isK || k != 0 {
+					continue
+				}
+				if c, isC := bo.X.(*ssa.Call); isC && core.CalleeName(c) == "builtin.len" {
+					skipEdge[[2]*ssa.BasicBlock{b, b.Succs[0]}] = true
+				}
+			}
+		}
+	}
+	if head == nil || len(stop) == 0 {
+		h.Bad(core.FuncName(fn)+"#loop", p.Pos(fn.Pos()), "the loop over the batch or the append of its units was not found")
+		return
+	}
+	h.Check(!reachesAvoiding(head, head, stop, skipEdge), core.FuncName(fn)+"#every-element", p.Pos(fn.Pos()), "every element with bytes is appended or the call fails",
+		"an iteration over the batch can end without the element being handed to the writer (and without failing the call): PutBatch then returns nil for a batch it has not fully written, and the write-cache deletes the skipped object, the only copy of data the metabase lists as available")
 }
